@@ -46,11 +46,44 @@ Fixpoint canon (t : tree) : tree :=
 Definition canon_f (f : forest) : forest := Tree.kids (canon (T f)).
 Definition unordered_eqb (a b : forest) : bool := forest_eqb (canon_f a) (canon_f b).
 
-(* every row of a level is accounted for by the diff, except rows of %rewrite rules
-   present on both sides (rewrite_diff omits a rewrite group that did not change) *)
-Definition covered (f other : aforest) (rows : list string) : bool :=
+(* rows of a level governed by %ordered / %rewrite rules, in order *)
+Definition ordered_rows_a (f : aforest) : list string :=
+  map arow (filter (fun k => dlogic_eqb (mi_dlogic (ami k)) DOrdered) f).
+Definition rewrite_group (f : aforest) : aforest :=
+  filter (fun k => dlogic_eqb (mi_dlogic (ami k)) DRewrite) f.
+Definition rewrite_rows_a (f : aforest) : list string := map arow (rewrite_group f).
+
+(* "nothing changed, at any depth": the same rows with the same rule and key on both sides, in the
+   same order wherever the rulebook says order matters (rows of %ordered and of %rewrite rules),
+   and, recursively, nothing changed below any row *)
+Fixpoint same_t (a b : atree) {struct a} : bool :=
+  match a with
+  | AT ka =>
+    let kb := akids b in
+    list_str_eqb (ordered_rows_a ka) (ordered_rows_a kb) &&
+    list_str_eqb (rewrite_rows_a ka) (rewrite_rows_a kb) &&
+    forallb (fun k => amem (arow k) ka) kb &&
+    (fix go (l : aforest) : bool :=
+       match l with
+       | [] => true
+       | (r, m, s) :: l' =>
+         match alookup r kb with
+         | Some (m', s') => mi_eqb m m' && same_t s s'
+         | None => false
+         end && go l'
+       end) ka
+  end.
+Definition same_f (a b : aforest) : bool := same_t (AT a) (AT b).
+
+(* the %rewrite rows of a level did not change at any depth (rewrite_diff then omits them) *)
+Definition rw_unchanged (ao an : aforest) : bool := same_f (rewrite_group ao) (rewrite_group an).
+
+(* every row of a level is accounted for by the diff; the only rows that may be missing are the
+   rows of %rewrite rules, and only when the whole %rewrite group of the level is unchanged at
+   every depth ([unch]) *)
+Definition covered (f : aforest) (unch : bool) (rows : list string) : bool :=
   forallb (fun k => existsb (String.eqb (arow k)) rows ||
-                    (dlogic_eqb (mi_dlogic (ami k)) DRewrite && amem (arow k) other)) f.
+                    (dlogic_eqb (mi_dlogic (ami k)) DRewrite && unch)) f.
 
 (* lossless ao an d: ops are exact and nothing is lost, at every depth *)
 Fixpoint lossless_n (ao an : aforest) (d : dnode) {struct d} : bool :=
@@ -58,7 +91,7 @@ Fixpoint lossless_n (ao an : aforest) (d : dnode) {struct d} : bool :=
   | DN o row mi kids =>
     let rows := map d_row kids in
     let sub (ao' an' : aforest) :=
-        nodup_rows rows && covered ao' an' rows && covered an' ao' rows &&
+        nodup_rows rows && covered ao' (rw_unchanged ao' an') rows && covered an' (rw_unchanged ao' an') rows &&
         forallb (lossless_n ao' an') kids in
     match o, alookup row ao, alookup row an with
     | Added, None, Some (m, s) =>
@@ -73,7 +106,8 @@ Fixpoint lossless_n (ao an : aforest) (d : dnode) {struct d} : bool :=
   end.
 Definition lossless (ao an : aforest) (d : list dnode) : bool :=
   let rows := map d_row d in
-  nodup_rows rows && covered ao an rows && covered an ao rows && forallb (lossless_n ao an) d.
+  nodup_rows rows && covered ao (rw_unchanged ao an) rows && covered an (rw_unchanged ao an) rows &&
+  forallb (lossless_n ao an) d.
 
 (* ordered rules: the surviving rows of an %ordered rule appear in new's order *)
 (* the diff logic of a diff entry is read from the reference annotation of its row, not
@@ -84,8 +118,6 @@ Definition is_ordered_in (f : aforest) (row : string) : bool :=
   match dl_in f row with Some DOrdered => true | _ => false end.
 Definition ordered_rows_d (an : aforest) (d : list dnode) : list string :=
   map d_row (filter (fun k => is_ordered_in an (d_row k) && negb (op_eqb (d_op k) Removed)) d).
-Definition ordered_rows_a (f : aforest) : list string :=
-  map arow (filter (fun k => dlogic_eqb (mi_dlogic (ami k)) DOrdered) f).
 Fixpoint order_ok_n (an : aforest) (d : dnode) {struct d} : bool :=
   match d with
   | DN o row _ kids =>
@@ -106,13 +138,48 @@ Fixpoint prefix_ok (old_rows new_rows : list string) (row : string) : bool :=
   | n :: ns, o :: os => String.eqb n o && (String.eqb n row || prefix_ok os ns row)
   | _, _ => false
   end.
-Definition moved_ok_top (ao an : aforest) (d : list dnode) : bool :=
+Definition moved_ok_lvl (pm : bool) (ao an : aforest) (d : list dnode) : bool :=
   let oldr := ordered_rows_a ao in
   let newr := ordered_rows_a an in
   forallb (fun k =>
              negb (is_ordered_in an (d_row k)) || negb (amem (d_row k) ao) ||
              negb (amem (d_row k) an) ||
-             Bool.eqb (op_eqb (d_op k) Moved) (negb (prefix_ok oldr newr (d_row k)))) d.
+             Bool.eqb (op_eqb (d_op k) Moved) (pm || negb (prefix_ok oldr newr (d_row k)))) d.
+Definition moved_ok_top (ao an : aforest) (d : list dnode) : bool := moved_ok_lvl false ao an d.
+
+(* the same at every depth: below an entry that is itself MOVED (its whole block is re-entered)
+   every surviving row is MOVED; below any other entry present on both sides a surviving row of an
+   %ordered rule is MOVED iff the prefix of new up to and including it deviates from old *)
+Fixpoint moved_ok_n (ao an : aforest) (d : dnode) {struct d} : bool :=
+  match d with
+  | DN o row _ kids =>
+    match alookup row ao, alookup row an with
+    | Some (_, so), Some (_, sn) =>
+      moved_ok_lvl (op_eqb o Moved) (akids so) (akids sn) kids &&
+      forallb (moved_ok_n (akids so) (akids sn)) kids
+    | _, _ => true
+    end
+  end.
+Definition moved_ok (ao an : aforest) (d : list dnode) : bool :=
+  moved_ok_lvl false ao an d && forallb (moved_ok_n ao an) d.
+
+(* a %rewrite block that is shown is shown as re-entered as a whole: no entry at or below a row of a
+   %rewrite rule is AFFECTED or UNCHANGED (rewrite_diff turns them into MOVED at every depth) *)
+Fixpoint whole_n (d : dnode) : bool :=
+  match d with DN o _ _ k => negb (op_eqb o Affected) && negb (op_eqb o Unchanged) && forallb whole_n k end.
+Definition dl_row (ao an : aforest) (row : string) : option dlogic :=
+  match dl_in ao row with Some L => Some L | None => dl_in an row end.
+Definition asub_of (f : aforest) (row : string) : aforest :=
+  match alookup row f with Some (_, s) => akids s | None => [] end.
+Fixpoint rewrite_whole_n (ao an : aforest) (d : dnode) {struct d} : bool :=
+  match d with
+  | DN o row _ kids =>
+    match dl_row ao an row with
+    | Some DRewrite => negb (op_eqb o Affected) && negb (op_eqb o Unchanged) && forallb whole_n kids
+    | _ => forallb (rewrite_whole_n (asub_of ao row) (asub_of an row)) kids
+    end
+  end.
+Definition rewrite_whole (ao an : aforest) (d : list dnode) : bool := forallb (rewrite_whole_n ao an) d.
 
 Section P.
   Variable rmatch : string -> string -> option (list string).
@@ -120,7 +187,7 @@ Section P.
     let '(rs, old, new) := x in
     let ao := annot_f rmatch rs old in
     let an := annot_f rmatch rs new in
-    lossless ao an d && order_ok an d && moved_ok_top ao an d &&
+    lossless ao an d && order_ok an d && moved_ok ao an d && rewrite_whole ao an d &&
     (negb (forest_eqb old new) || match strip_unchanged d with [] => true | _ => false end).
 
   (* the projections, for rulebooks without %rewrite rules at the compared levels *)
